@@ -489,6 +489,24 @@ def r7(ctx):
         fn = fb.fn(name) if len(fb.fns(name)) == 1 else [f for f in fb.fns(name) if any(True for _ in [0])][0]
         for nid, k in items:
             kk = k
+            # the roles of the operands do not depend on how a local or parameter is called: a local stands for the accessor
+            # it was initialised from, the two bool parameters of find(circuit, name, levels, isWrite, isPassive) for the
+            # direction flags in the order of its interface
+            import re as _re
+            for y in fn.walk(nid):
+                yv = fn.nodes[y]
+                if yv['k'] != 'DeclRefExpr':
+                    continue
+                role = None
+                if yv.get('rk') == 'local':
+                    xk = fn.xkey(y)
+                    role = 'isPassive' if 'isPassive()' in xk or 'm_isPassive' in xk else 'isWrite' if 'isWrite()' in xk or 'm_isWrite' in xk else None
+                elif yv.get('rk') == 'param':
+                    bools = [p_['name'] for p_ in fn.params if (p_.get('t') or '') == 'bool']
+                    if len(bools) == 2 and yv.get('name') in bools:
+                        role = ('isWrite', 'isPassive')[bools.index(yv['name'])]
+                if role and yv.get('name') != role:
+                    kk = _re.sub(r'(?<![\w.])%s(?![\w(])' % _re.escape(yv['name']), role, kk)
             for a in ('message.isPassive()', 'this.m_isPassive'):
                 kk = kk.replace(a, 'isPassive')
             for a in ('message.isWrite()', 'this.m_isWrite'):
